@@ -21,10 +21,19 @@ pub enum Case {
 const ENC_ID: u64 = 5;
 
 fn instance(kind: i32, bound: Option<(f64, f64)>) -> v1::Instance {
+    // Non-contiguous ids, maximum not last. Two layouts, so that id schemes based on the last list
+    // element (layout 0: 8 + 1 = 9 exists) or on the list length (layout 1: 4 exists) collide.
+    let layout1 = bound.is_some_and(|(l, u)| ((u - l).abs() as u64) % 2 == 1);
+    let mut vars = if layout1 {
+        vec![VarRep::new(4, KIND_BINARY, None), VarRep::new(ENC_ID, kind, bound), VarRep::new(9, KIND_CONTINUOUS, None), VarRep::new(3, KIND_BINARY, None)]
+    } else {
+        vec![VarRep::new(9, KIND_CONTINUOUS, None), VarRep::new(ENC_ID, kind, bound), VarRep::new(8, KIND_BINARY, None)]
+    };
+    vars[0].name = Some("pre-existing".into());
     InstRep {
         sense: SENSE_MIN,
         objective: Some(FnRep::Lin { terms: vec![(ENC_ID, 1.0)], c: 0.0 }),
-        vars: vec![VarRep::new(9, KIND_CONTINUOUS, None), VarRep::new(ENC_ID, kind, bound), VarRep::new(2, KIND_BINARY, None)],
+        vars,
         ..Default::default()
     }
     .to_msg()
